@@ -15,7 +15,7 @@ EXPLANATION = (
 
 
 def check(ctx, run):
-    run.rules_run = ['R06.1', 'R06.2', 'R06.3', 'R06.4', 'R06.5', 'R06.8', 'R06.9', 'R05.1/R05.2(iterators)', 'R06.12']
+    run.rules_run = ['R06.1', 'R06.2', 'R06.3', 'R06.4', 'R06.5', 'R06.8', 'R06.9', 'R05.1/R05.2(iterators)', 'R06.12', 'R06.13', 'R06.14', 'R06.15', 'R05.14']
     ba = buffers.BufferAnalysis(ctx)
     from rules.c17 import entries
     for e in entries(ctx):
@@ -30,6 +30,7 @@ def check(ctx, run):
     only = lambda p: 'iterator' in p
     walkers.w_init(ctx, run, 'R06.9/R05.1', only=only, floor=7)
     walkers.w_advance(ctx, run, 'R06.9/R05.2', only=only, floor=4)
+    walkers.w_pair(ctx, run, 'R06.9/R05.14', only=lambda p_: any(k_ in p_ for k_ in ('strip_nulls', 'delete_', 'concat', 'array_insert', 'object_')), floor=29)
     import boundaries
     _bf = lambda p_: p_.startswith(('functions::delete_', 'functions::array_insert', 'functions::object_'))
     boundaries.check(ctx, run, 'R06.10', [p_ for p_ in sorted(boundaries.load_baseline() or {}) if _bf(p_)], 'an editor rejects a position / key')
@@ -39,4 +40,5 @@ def check(ctx, run):
     from rules import editing as _ed
     _ed.r06_13(ctx, run, rule='R06.13')
     _ed.r11_6(ctx, run, rule='R06.14/R11.6')
+    _ed.r06_15(ctx, run, rule='R06.15')
     return report.finish(run, level='other', explanation=EXPLANATION, assumptions=["A1: valid documents", "A2/A3"])
